@@ -343,7 +343,7 @@ fn gen_event(rng: &mut Rng, me: &str) -> Value {
                 c.insert("body".into(), json!(b));
             }
         }
-        match rng.below(8) {
+        match rng.below(11) {
             0 => {
                 c.insert("m.mentions".into(), json!({}));
             }
@@ -352,6 +352,16 @@ fn gen_event(rng: &mut Rng, me: &str) -> Value {
             }
             2 => {
                 c.insert("m.mentions".into(), json!(true));
+            }
+            // near misses: keys whose escaped path merely starts with `content.m\.mentions`
+            3 => {
+                c.insert("m.mentionsx".into(), json!(true));
+            }
+            4 => {
+                c.insert("m.mentions.x".into(), json!({"user_ids": [me]}));
+            }
+            5 => {
+                c.insert("m".into(), json!({"mentions": {"room": true}}));
             }
             _ => {}
         }
